@@ -290,6 +290,60 @@ def polar_ufunc(name, x):
     return NotImplemented
 
 
+def numeric_value(v, point):
+    """Complex double value of a polar-domain term at a generic point (rho, theta); opaque log / sqrt / arctan
+    applications are evaluated on their principal branches.  Only used to *refute* an identity."""
+    import cmath
+    rho, th = point
+    base = {'RHO': rho, 'E[i*TH]': cmath.exp(1j * th), 'LR': cmath.log(rho), 'TH': th, 'pi': cmath.pi,
+            'E[i*LR]': cmath.exp(1j * cmath.log(rho))}
+
+    def zval(c):
+        tot = 0j
+        for (a, b), q in c.c.items():
+            if b:
+                raise AlgebraError('j in numeric evaluation')
+            tot += complex(q) * cmath.exp(1j * cmath.pi / 4 * a)
+        return tot
+
+    def atom(a):
+        if a in base:
+            return base[a]
+        if a in OPAQUE_ARGS:
+            fname, arg = OPAQUE_ARGS[a]
+            x = ev(arg)
+            return {'log': cmath.log, 'sqrt': cmath.sqrt, 'arctan': cmath.atan}[fname](x)
+        raise AlgebraError('atom %s has no numeric value' % a)
+
+    def evp(p):
+        tot = 0j
+        for mono, c in p.t.items():
+            term = zval(c)
+            for a, e in mono:
+                term *= atom(a) ** float(e)
+            tot += term
+        return tot
+
+    def ev(x):
+        if isinstance(x, (int, Fr)):
+            return complex(x)
+        if isinstance(x, Rat):
+            return evp(x.n) / evp(x.d)
+        return evp(x)
+    return ev(v)
+
+
+def numerically_different(got, want):
+    try:
+        for point in ((1.37, 0.61), (0.83, 0.29)):
+            for g, w in zip(got, want):
+                if abs(numeric_value(g, point) - numeric_value(w, point)) > 1e-6:
+                    return True
+    except (AlgebraError, KeyError, TypeError, ValueError, ZeroDivisionError, OverflowError):
+        return False
+    return False
+
+
 def polar_verdict(got, want):
     """-> 'ok' | 'violation' | 'undecided'.  A value that still contains an opaque application is a decided
     violation when the argument of that application is itself fully normalised (log / arctan / sqrt are
@@ -304,7 +358,8 @@ def polar_verdict(got, want):
             return 'undecided'
         for a in g.atoms() - POLAR_ATOMS:
             if a not in OPAQUE_ARGS or not is_polar_normal(OPAQUE_ARGS[a][1]):
-                return 'undecided'
+                # nested opaque applications: the identity can still be refuted at a generic point
+                return 'violation' if numerically_different(got, want) else 'undecided'
     return 'violation' 
 
 
